@@ -252,6 +252,65 @@ def bracket_rule(rep, u):
     return 1
 
 
+# ------------------------------------------------------------------ R-PROGRESS cursor enumerators
+
+def enum_progress(rep, u, fname="ini_sect_enum", cursor="sect_off", kind_field="type", kind_const="INI_LINE_TYPE_SECTION", extra=None):
+    """The enumerators are driven as `while (0 == enum(ini, &off, ...)) { ...; off++; }` (ini_sect_find, ini_sect_val_find and
+    every external user).  That loop ends iff, for every start offset s in [0, lines_count] (s = lines_count is what the caller
+    holds after stepping past a hit on the last line), a successful call leaves s <= *off < lines_count.  The function is
+    evaluated for every store of up to 3 lines whose kinds are all the enumerated one (the densest case) and every s."""
+    fn = need(u, fname)
+    rep.functions.add(fname)
+    rec = u.records.get("ini_line_s")
+    if rec is None:
+        raise driver.AnalysisBroken("record ini_line_s not found")
+    foff = {f["n"]: f["off"] // 8 for f in rec["fields"]}
+    kv = None
+    for _p, _r, x, _ps in fn.nodes():
+        if kind_const in (x.get("m") or []) and "cv" in x:
+            kv = int(x["cv"])
+    if kv is None:
+        raise driver.AnalysisBroken("enumerator %s has no constant value in the facts" % kind_const)
+    INI, LINES, OFFP, REC0 = 0x1000, 0x2000, 0x3000, 0x10000
+    desc = "%s: a successful call never moves the caller's cursor backwards and an exhausted cursor ends the enumeration" % fname
+    bad = undec = None
+    cases = 0
+    for n in (1, 2, 3):
+        for s in range(0, n + 1):
+            pe = r_stride.PE(u)
+            for i in range(n):
+                pe.memory[LINES + 8 * i] = REC0 + 0x100 * i
+                pe.memory[REC0 + 0x100 * i + foff[kind_field]] = kv
+                pe.memory[REC0 + 0x100 * i + foff["name"]] = 0x5000
+                pe.memory[REC0 + 0x100 * i + foff["name_size"]] = 1
+            bind = {"ini": INI, "ini->lines": LINES, "ini->lines_count": n, cursor: OFFP, "*(%s)" % cursor: s}
+            bind.update(extra or {})
+            for p in fn.params:
+                if p["n"] not in bind:
+                    bind[p["n"]] = 0
+            ev, ret = pe.trace(fn, bind)
+            cases += 1
+            if isinstance(ret, str):
+                undec = undec or "lines_count=%d start=%d: %s" % (n, s, ret)
+                continue
+            final = ev[-1][1].get("*(%s)" % cursor) if ev else None
+            if ret == 0:
+                if final is None:
+                    undec = undec or "cursor after the call not evaluable"
+                elif not (s <= final < n):
+                    bad = bad or "with %d lines and start offset %d the call succeeds with *%s = %s: the caller's `off++` loop visits the " \
+                        "same entries again and never ends" % (n, s, cursor, final)
+            elif s == n and ret is None:
+                undec = undec or "status not constant"
+    if bad:
+        rep.violated("R-PROGRESS", fn, "cursor-monotone", desc, bad)
+    elif undec:
+        rep.undecided("R-PROGRESS", fn, "cursor-monotone", desc, undec)
+    else:
+        rep.proved("R-PROGRESS", fn, "cursor-monotone", desc, "%d (store size, start offset) cases, all lines of the enumerated kind" % cases)
+    return 1
+
+
 # ------------------------------------------------------------------ R-AGREE calc vs gen
 
 def calc_gen_agree(rep, u):
@@ -614,6 +673,8 @@ def run(rep, tier):
     rep.floor("single obligations", n, 4)
     rep.floor("capacity field stores", capacity_field_rule(rep, u), 2)
     bracket_rule(rep, u)
+    enum_progress(rep, u)
+    enum_progress(rep, u, "ini_sect_val_enum", "val_off", "type", "INI_LINE_TYPE_VALUE", {"sect_off": 0})
     return driver.finish(
         rep, "other",
         "INI store, structural clauses: generator writes guarded by offset+pending <= capacity (grid evaluation of the guard), size "
